@@ -80,6 +80,15 @@ type env struct {
 	tmpdir  string
 }
 
+// dirty returns a buffer that is not zero: a reader must write every bit it reports as read
+func dirty(n int64) []byte {
+	b := make([]byte, n)
+	for i := range b {
+		b[i] = 0xa5
+	}
+	return b
+}
+
 func bitsOf(b []byte, n int64) []int {
 	out := make([]int, n)
 	for i := int64(0); i < n; i++ {
@@ -207,7 +216,7 @@ func exec1(hs map[int]handle, o *Op) {
 				o.Op = "skip"
 				return
 			}
-			buf := make([]byte, bitio.BitsByteCount(o.N)+1)
+			buf := dirty(bitio.BitsByteCount(o.N) + 1)
 			k, err := r.ReadBits(buf, o.N)
 			o.K = k
 			if k >= 0 && k <= o.N {
@@ -220,7 +229,7 @@ func exec1(hs map[int]handle, o *Op) {
 				o.Op = "skip"
 				return
 			}
-			buf := make([]byte, bitio.BitsByteCount(o.N)+1)
+			buf := dirty(bitio.BitsByteCount(o.N) + 1)
 			k, err := r.ReadBitsAt(buf, o.N, o.Off)
 			o.K = k
 			if k >= 0 && k <= o.N {
@@ -233,7 +242,7 @@ func exec1(hs map[int]handle, o *Op) {
 				o.Op = "skip"
 				return
 			}
-			buf := make([]byte, bitio.BitsByteCount(o.N)+1)
+			buf := dirty(bitio.BitsByteCount(o.N) + 1)
 			_, err := bitio.ReadFull(r, buf, o.N)
 			setErr(err)
 			if err == nil {
@@ -281,7 +290,7 @@ func exec1(hs map[int]handle, o *Op) {
 	switch o.Op {
 	case "read":
 		r := h.byt.(io.Reader)
-		p := make([]byte, o.N)
+		p := dirty(o.N)
 		k, err := r.Read(p)
 		o.K = int64(k)
 		if k >= 0 && int64(k) <= o.N {
@@ -290,7 +299,7 @@ func exec1(hs map[int]handle, o *Op) {
 		setErr(err)
 	case "readfull":
 		r := h.byt.(io.Reader)
-		p := make([]byte, o.N)
+		p := dirty(o.N)
 		k, err := io.ReadFull(r, p)
 		setErr(err)
 		if err == nil {
